@@ -417,7 +417,10 @@ class VHCT(Algorithm):
 
         self.updateBackwardTree()
 
-        if end_node.get_visited_times() >= end_node.get_tau_hi_value():
+        if (
+            end_node.get_children() is None
+            and end_node.get_visited_times() >= end_node.get_tau_hi_value()
+        ):
             self.expand(end_node)
 
     def pull(self, time):
